@@ -17,11 +17,18 @@
      5  producers ahead: the combinator is called when every producer is blocked on a full buffer
      6  nil results (fmap to a channel type): the mapped function yields nil (reported as 0) for the items
         divisible by 3; a nil result is an item like any other
+     7  shared channels (join forms, pipeline): the n input channels (each with its own producer) are handed
+        over in the sequence ORDER, in which a channel may occur several times (twice on the channel of
+        channels / in the slice / among the parameters; returned twice by the second stage of a pipeline);
+        NVAR of the variadic form is the number of parameters = length of ORDER
+     8  zero items: the item lists contain the zero value of the element type (reported as 0), possibly
+        several times; ORDER = [T], the element type of the instance: 0 int, 1 error, 2 interface{}, 3 *int
    The specification is the same in every environment.  The model of a feeder history is the expected IR
    run against the feeder THREAD (Chan/Feeder.v: the same step function); a burst history is a run of the
-   independent-producer model (a particular schedule of it). *)
+   independent-producer model (a particular schedule of it); a shared-channel history is a run of the expected
+   IR from Chan/Alias.init_alias (several receivers on one channel). *)
 From Coq Require Import FSets.FSetPositive.
-From Verif Require Import Base Sexp Chan.Sem Chan.Expected Chan.Explore Chan.Feeder.
+From Verif Require Import Base Sexp Chan.Sem Chan.Expected Chan.Explore Chan.Feeder Chan.Alias.
 Open Scope string_scope.
 
 Definition f19 (x : nat) : nat := x + 1000.
@@ -110,7 +117,11 @@ Definition pcls (n : nat) : string :=
 Definition ecls (env : nat) : string :=
   match env with 0 => "" | 1 => "/feeder" | 3 => "/lazy-feeder" | 2 => "/burst-closed-before"
                | 4 => "/burst-closed-together" | 5 => "/producers-ahead" | 6 => "/nil-results"
+               | 7 => "/shared-channel" | 8 => "/zero-items"
                | _ => "/env?" end%nat.
+
+Definition elcls (t : nat) : string :=
+  match t with 0 => "/elem-int" | 1 => "/elem-error" | 2 => "/elem-interface" | 3 => "/elem-pointer" | _ => "/elem?" end%nat.
 
 (* the rest of the header after NVAR PROCS OUTER: (environment, rounds, feeding order) *)
 Definition get_env (rest : list nat) : option (nat * nat * list nat) :=
@@ -121,12 +132,15 @@ Definition get_env (rest : list nat) : option (nat * nat * list nat) :=
   end%nat.
 
 (* is the header consistent with its environment?  feeder: ORDER is a schedule of the inputs, one round;
-   burst: no order, at least one round; independent producers: nothing *)
+   burst: no order, at least one round; independent producers: nothing; shared channels: ORDER names every
+   input and only inputs, the item lists are increasing; zero items: ORDER is the element type *)
 Definition env_ok (env rounds : nat) (order : list nat) (lists : list (list nat)) : bool :=
   match env with
   | 0 | 5 | 6 => Nat.eqb rounds 1 && Nat.eqb (List.length order) 0
   | 1 | 3 => Nat.eqb rounds 1 && valid_order lists order
   | 2 | 4 => Nat.leb 1 rounds && Nat.eqb (List.length order) 0
+  | 7 => Nat.eqb rounds 1 && valid_alias (List.length lists) order && forallb increasing lists
+  | 8 => Nat.eqb rounds 1 && match order with [t] => Nat.leb t 3 | _ => false end
   | _ => false
   end%nat.
 
@@ -146,12 +160,12 @@ Definition eval19 (e : sexp) : verdict :=
           let n := List.length inputs in
           let clean := Nat.eqb pnc 0 && Nat.eqb leak 0 && Nat.eqb tmo 0 && all_one cl
                        && Nat.eqb (List.length cl) (List.length os) in
-          let guard := nodup_nat (concat lists) && forallb (fun x => Nat.ltb x 1000) (concat lists)
+          let guard := nodup_nat (if Nat.eqb env 8 then nonzero (concat lists) else concat lists) && forallb (fun x => Nat.ltb x 1000) (concat lists)
                        && env_ok env rounds order lists in
           let feeder := Nat.eqb env 1 || Nat.eqb env 3 in
           let cfg := {| c_inputs := inputs; c_outer := outer |} in
           let tag := kd ++ "/n" ++ cls n ++ "/items" ++ cls (List.length (concat lists)) ++ "/" ++ pcls procs
-                     ++ ecls env in
+                     ++ ecls env ++ (if Nat.eqb env 8 then elcls (hd 0%nat order) else "") in
           let mkv (spec model : bool) (m : sexp) (t : string) :=
             {| v_known := true; v_model_ok := model; v_spec_ok := spec; v_guard := guard;
                v_model := m; v_tag := t |} in
@@ -166,11 +180,13 @@ Definition eval19 (e : sexp) : verdict :=
           let join (k : kind) (d : fn) (ci : nat) (with_model : bool) :=
             match os with
             | [o] =>
-                let spec := clean && interleaved o lists in
+                let spec := clean && (if Nat.eqb env 7 then alias_spec o lists order
+                                      else if Nat.eqb env 8 then ileave o lists else interleaved o lists) in
                 let m := L [Sym "interleaving-of"; L (map nats_sexp lists)] in
                 if with_model && spec && negb (Nat.leb n 48) then mkv spec spec m (tag ++ "/model-skipped-wide")
                 else if with_model && spec then
-                  match (if feeder then model_produces_feeder k d cfg (Nat.eqb env 3) order ci o
+                  match (if Nat.eqb env 7 then model_produces_from (fn_progs d) (init_alias k d cfg order) ci o
+                         else if feeder then model_produces_feeder k d cfg (Nat.eqb env 3) order ci o
                          else model_produces k d cfg ci o) with
                   | Some b => mkv spec b m (tag ++ "/model-trace")
                   | None => mkv spec spec m (tag ++ "/model-budget")
@@ -188,7 +204,8 @@ Definition eval19 (e : sexp) : verdict :=
           else if String.eqb kd "joincc" then join KJoinCC exp_join_cc 2%nat true
           else if String.eqb kd "joinsl" then join KJoinSl exp_join_sl 1%nat true
           else if String.eqb kd "joinvar" then
-            if Nat.eqb nvar n then join KJoinVar (exp_join_var n) (S n) true else bad_line
+            if Nat.eqb nvar (if Nat.eqb env 7 then List.length order else n)
+            then join KJoinVar (exp_join_var nvar) (S n) true else bad_line
           else if String.eqb kd "pipeline" then join KJoinCC exp_join_cc 2%nat false
           else bad_line
           end
